@@ -265,8 +265,8 @@ Print Assumptions C06_ipv6cp_wire_bad.
    after a reservation conflict on re-authentication, and then IPCP is not open: C06_open_session_has_assigned_address); and the remembered negotiated
    peer address is nil or the assigned one, never a stale one. *)
 Theorem C06_adopted_is_assigned :
-  forall ow aaa orc es,
-  let s := sess_run repaired (sess_start repaired ow aaa orc) es in
+  forall ow aaa d orc es,
+  let s := sess_run repaired (sess_start_dns repaired ow aaa d orc) es in
   (s_fsm s = 0%N /\ s_addr s = None /\ s_open s = false) \/
   (usable (ic_assigned (s_cfg s)) = true /\
    (s_addr s = None \/ to4o (s_addr s) = ic_assigned (s_cfg s)) /\
@@ -277,9 +277,9 @@ Print Assumptions C06_adopted_is_assigned.
 (* If no re-authentication runs into a reservation conflict (ReserveIP answers "held by another session"),
    the session address of a started session IS the assigned address after every event. *)
 Theorem C06_adopted_is_assigned_no_conflict :
-  forall ow aaa orc es,
+  forall ow aaa d orc es,
   forallb no_conflict es = true ->
-  let s := sess_run repaired (sess_start repaired ow aaa orc) es in
+  let s := sess_run repaired (sess_start_dns repaired ow aaa d orc) es in
   (s_fsm s = 0%N /\ s_addr s = None /\ s_open s = false) \/
   (usable (ic_assigned (s_cfg s)) = true /\ to4o (s_addr s) = ic_assigned (s_cfg s)).
 Proof. exact adopted_is_assigned_no_conflict. Qed.
@@ -302,7 +302,7 @@ Print Assumptions C06_reauth_conflict_example.
    IP-Address option in it carries the assignment in force, which is usable. *)
 Theorem C06_session_acks_only_assigned :
   forall s0 es e id os,
-  (exists ow aaa orc, s0 = sess_start repaired ow aaa orc) \/
+  (exists ow aaa d orc, s0 = sess_start_dns repaired ow aaa d orc) \/
   (exists addr d1 d2, s0 = sess_restore repaired addr d1 d2) ->
   let s := sess_run repaired s0 es in
   In (Sca id os) (snd (sess_step repaired s e)) ->
@@ -312,7 +312,7 @@ Theorem C06_session_acks_only_assigned :
                                   (o_type o = 3%N \/ o_type o = 129%N \/ o_type o = 131%N)).
 Proof.
   intros s0 es e id os H0. apply session_acks_only_assigned.
-  destruct H0 as [(ow & aaa & orc & ->)|(addr & d1 & d2 & ->)]; [apply sess_start_ok|apply sess_restore_ok].
+  destruct H0 as [(ow & aaa & d & orc & ->)|(addr & d1 & d2 & ->)]; [apply sess_start_ok|apply sess_restore_ok].
 Qed.
 Print Assumptions C06_session_acks_only_assigned.
 
@@ -320,16 +320,16 @@ Print Assumptions C06_session_acks_only_assigned.
    usable and the session address IS the assignment. *)
 Theorem C06_open_session_has_assigned_address :
   forall s0 es,
-  (exists ow aaa orc, s0 = sess_start repaired ow aaa orc) \/
+  (exists ow aaa d orc, s0 = sess_start_dns repaired ow aaa d orc) \/
   (exists addr d1 d2, s0 = sess_restore repaired addr d1 d2) ->
   let s := sess_run repaired s0 es in
   s_open s = true ->
   usable (ic_assigned (s_cfg s)) = true /\ to4o (s_addr s) = ic_assigned (s_cfg s) /\ s_fsm s = 9%N.
 Proof.
   intros s0 es H0 s. apply open_has_assigned.
-  - apply sess_run_ok. destruct H0 as [(ow & aaa & orc & ->)|(addr & d1 & d2 & ->)];
+  - apply sess_run_ok. destruct H0 as [(ow & aaa & d & orc & ->)|(addr & d1 & d2 & ->)];
       [apply sess_start_ok|apply sess_restore_ok].
-  - destruct H0 as [(ow & aaa & orc & ->)|(addr & d1 & d2 & ->)]; apply sess_run_fsm_ok;
+  - destruct H0 as [(ow & aaa & d & orc & ->)|(addr & d1 & d2 & ->)]; apply sess_run_fsm_ok;
       first [apply sess_start_ok|apply sess_restore_ok|apply sess_start_fsm_ok|apply sess_restore_fsm_ok].
 Qed.
 Print Assumptions C06_open_session_has_assigned_address.
@@ -359,8 +359,8 @@ Print Assumptions C06_assigned_immutable.
    nothing assigned (and by C06_idle_silent nothing is ever sent or adopted).  The "nothing to assign:
    acknowledge any non-zero proposal" branch of ProcessConfReq can therefore never produce a packet. *)
 Theorem C06_startncp_assigned :
-  forall ow aaa orc,
-  let s := sess_start repaired ow aaa orc in
+  forall ow aaa d orc,
+  let s := sess_start_dns repaired ow aaa d orc in
   let a := addr_after_registry ow (extract_ip repaired aaa) orc in
   (usable a = true ->
      s_fsm s = 6%N /\ usable (ic_assigned (s_cfg s)) = true /\ ic_assigned (s_cfg s) = to4o a /\ s_addr s = a) /\
